@@ -248,7 +248,7 @@ macro_rules! uint_addsub {
 
 //@ name=c04_uint1_addsub prop=C04,C11 tier=quick profile=k64 funcs="Uint::adc,Uint::sbb,Uint::wrapping_add,Uint::wrapping_sub,Uint::saturating_add,Uint::saturating_sub,CheckedAdd,CheckedSub,WrappingAdd,WrappingSub,Wrapping<Uint>,Checked<Uint>" bound="Uint<1>, all a,b, all carry/borrow-in words" free_bits=192
 uint_addsub!(c04_uint1_addsub, 1);
-//@ name=c04_uint2_addsub prop=C04,C11 tier=quick profile=k64 funcs="Uint::adc,Uint::sbb,Uint::wrapping_add,Uint::wrapping_sub,Uint::saturating_add,Uint::saturating_sub,CheckedAdd,CheckedSub,Wrapping<Uint>,Checked<Uint>" bound="Uint<2>, all a,b, all carry/borrow-in words" free_bits=320
+//@ name=c04_uint2_addsub prop=C04,C11 tier=quick profile=k64 funcs="Uint::adc,Uint::sbb,Uint::wrapping_add,Uint::wrapping_sub,Uint::saturating_add,Uint::saturating_sub,CheckedAdd,CheckedSub,Wrapping<Uint>,Checked<Uint>" bound="Uint<2>, all a,b, all carry/borrow-in words" free_bits=320 core=C11
 uint_addsub!(c04_uint2_addsub, 2);
 //@ name=c04_uint3_addsub prop=C04,C11 tier=quick profile=k64 funcs="Uint::adc,Uint::sbb,Uint::wrapping_add,Uint::wrapping_sub,Uint::saturating_add,Uint::saturating_sub,CheckedAdd,CheckedSub,Wrapping<Uint>,Checked<Uint>" bound="Uint<3>, all a,b, all carry/borrow-in words" free_bits=448
 uint_addsub!(c04_uint3_addsub, 3);
